@@ -5,15 +5,17 @@
 (*                                                                            *)
 (* Every action is one driver step of the conformance harness (vh-qiter)      *)
 (* followed by "run to quiescence": start a call of an iterator, Add at the   *)
-(* far end, remove at the near / far end, Close, cancel the context of a      *)
-(* blocked call, start / cancel a Queue.BlockingAdd (which shares the         *)
+(* far end (plain, or a Deque Force push that evicts at the near end when the *)
+(* deque is full), remove at the near / far end, Close, cancel the context of *)
+(* a blocked call, start / cancel a Queue.BlockingAdd (which shares the       *)
 (* condition variable of the Queue iterators), or two of Add / Remove / Close *)
 (* back to back with no quiescent point in between.  `hist` records the step  *)
 (* together with, for every call that was pending during the step,            *)
 (*     vals, errs, mayblock  the set of observations C20 allows (IterAbs)     *)
 (*     br                    the outcome this behaviour continues with        *)
-(* (porder, the order in which the pending calls were started, is recorded    *)
-(* for the sampling of schedules only.)                                       *)
+(* (porder, the order in which the pending calls were started, tcause, how    *)
+(* items were removed so far, and stale, whether `br` is a value that is no   *)
+(* longer present, are recorded for the sampling of schedules only.)          *)
 (* The harness judges the real observation against the allowed set only; when *)
 (* the real outcome is allowed but differs from `br` (possible only where the *)
 (* property leaves a choice: concurrent removals, float credit) the remainder *)
@@ -42,33 +44,42 @@ AllSetups ==
   {Setup("queue", "fwd", "nolimit", Blk(TRUE)), Setup("queue", "fwd", "nolimit", Blk2(TRUE, TRUE)),
    Setup("queue", "fwd", "quota", Blk(TRUE))}
   \cup {Setup("deque", d, "nolimit", b) : d \in {"fwd", "rev"}, b \in {Blk(TRUE), Blk(FALSE), Blk2(TRUE, FALSE)}}
+  \* a fixed-capacity deque used as a ring buffer (Force pushes evict at the near end)
+  \cup {Setup("deque", d, "hard", b) : d \in {"fwd", "rev"}, b \in {Blk(FALSE), Blk2(TRUE, FALSE)}}
 QueueSetups == {s \in AllSetups : s.kind = "queue"}
 DequeSetups == {s \in AllSetups : s.kind = "deque"}
 
 \* the quota tracker of the "quota" setups: soft quota 1, hard limit 2, burst credit 1 - an Add beyond the soft
 \* quota is admitted on credit while a BlockingAdd stays blocked (cap() = soft quota <= len())
-TrOf(s) == IF s.trk = "quota" THEN Quota(2, 1, 1) ELSE NoLimit
+\* and the fixed capacity of the "hard" setups: 2 (an iterator resting on an evicted element needs a second
+\* eviction to walk through another evicted element; capacity 1 has no such walk)
+TrOf(s) == IF s.trk = "quota" THEN Quota(2, 1, 1) ELSE IF s.trk = "hard" THEN Hard(2) ELSE NoLimit
 
 \* porder: the pending calls in the order in which they were started - the abstract meaning does not depend on
 \* it, the implementation's notify lists do; it is part of the view so that the edge cover visits both orders
-VARIABLES setup, c, its, pend, canc, badd, held, porder, hist
-vars == <<setup, c, its, pend, canc, badd, held, porder, hist>>
+\* tcause: how items were removed so far ("", "pop", "evict", "both") - like porder it has no abstract meaning,
+\* it makes the edge cover and the sampling distinguish removals by Pop from evictions by Force pushes
+VARIABLES setup, c, its, pend, canc, badd, held, porder, tcause, hist
+vars == <<setup, c, its, pend, canc, badd, held, porder, tcause, hist>>
+
+\* a ring buffer needs one more value than the others before something interesting happens
+AddBound == IF setup.trk = "hard" THEN MaxAdds + 1 ELSE MaxAdds
 
 Order == <<"i1", "i2">>
 Names == DOMAIN its
 NoBadd == [st |-> "none", val |-> "", canc |-> FALSE]
 
 view == <<setup, Len(c.added), {Pos(c, v) : v \in ItemSet(c)}, c.closed, c.tr, its, pend, canc,
-          [badd EXCEPT !.val = ""], held, porder>>
+          [badd EXCEPT !.val = ""], held, porder, tcause>>
 
 Init == \E s \in Setups :
           /\ setup = s /\ c = CNew(s.kind, TrOf(s))
           /\ its = [i \in DOMAIN s.blk |-> INew(s.blk[i])]
-          /\ pend = [i \in DOMAIN s.blk |-> FALSE] /\ canc = {} /\ badd = NoBadd /\ held = "" /\ porder = <<>>
+          /\ pend = [i \in DOMAIN s.blk |-> FALSE] /\ canc = {} /\ badd = NoBadd /\ held = "" /\ porder = <<>> /\ tcause = ""
           /\ hist = <<[op |-> "new", arg |-> s.kind, it |-> s.dir, hold |-> FALSE, res |-> s.trk, ralw |-> {},
                        obs |-> <<>>, blocking |-> [k \in 1..Cardinality(DOMAIN s.blk) |-> s.blk[Order[k]]],
                        hard |-> TrOf(s).hard, soft |-> TrOf(s).soft, credit |-> TrOf(s).credit \div Scale,
-                       porder |-> <<>>]>>
+                       porder |-> <<>>, tcause |-> ""]>>
 
 Id == Len(hist) + 1
 Val == "v" \o ToString(Id)
@@ -80,9 +91,9 @@ BaddOuts(c1, b1) ==
   ELSE LET outs == ABAdd(c1, b1.val, b1.canc) IN
        IF outs = {}
          THEN {[c |-> c1, b |-> b1,
-                ob |-> <<[t |-> "badd", br |-> "blocked", vals |-> {}, errs |-> {}, mayblock |-> TRUE]>>]}
+                ob |-> <<[t |-> "badd", br |-> "blocked", vals |-> {}, errs |-> {}, mayblock |-> TRUE, stale |-> FALSE]>>]}
          ELSE {[c |-> o.c, b |-> NoBadd,
-                ob |-> <<[t |-> "badd", br |-> o.res, vals |-> {}, errs |-> {x.res : x \in outs}, mayblock |-> FALSE]>>] : o \in outs}
+                ob |-> <<[t |-> "badd", br |-> o.res, vals |-> {}, errs |-> {x.res : x \in outs}, mayblock |-> FALSE, stale |-> FALSE]>>] : o \in outs}
 
 \* outcomes a behaviour continues with for a pending call of iterator state s: everything C20 allows when the
 \* iterator is not tainted (exactly one), and for a tainted one the distinguishable candidates - the successor in
@@ -96,7 +107,9 @@ Branches(c1, s, cancelled) ==
       errs == IF s.tainted /\ s.blocking /\ ~c1.closed THEN a.errs \ {"eof"} ELSE a.errs
   IN (a.vals \cap (nextv \cup first)) \cup errs \cup (IF a.mayblock THEN {"blocked"} ELSE {})
 
-Ob(i, a, br) == [t |-> i, br |-> br, vals |-> a.vals, errs |-> a.errs, mayblock |-> a.mayblock]
+\* stale: the behaviour continues with a value that is no longer present (the iterator walks through a removed item)
+Ob(i, a, br, c1) == [t |-> i, br |-> br, vals |-> a.vals, errs |-> a.errs, mayblock |-> a.mayblock,
+                     stale |-> br \in a.vals /\ br \notin ItemSet(c1)]
 
 \* all of it: the successor state and the observation record, given the state after the driver's own action
 Settle(c1, its1, pend1, canc1, badd1, op, arg, it, hold, res, ralw) ==
@@ -118,54 +131,66 @@ Settle(c1, its1, pend1, canc1, badd1, op, arg, it, hold, res, ralw) ==
          /\ hist' = Append(hist, [op |-> op, arg |-> arg, it |-> it, hold |-> hold, res |-> res, ralw |-> ralw,
                                   obs |-> bo.ob \o [k \in 1..Cardinality(P) |->
                                             LET i == SelectSeq(Order, LAMBDA x : x \in P)[k]
-                                            IN Ob(i, Allowed(bo.c, its1[i], i \in canc1), f[i])],
-                                  blocking |-> <<>>, hard |-> 0, soft |-> 0, credit |-> 0, porder |-> porder])
+                                            IN Ob(i, Allowed(bo.c, its1[i], i \in canc1), f[i], bo.c)],
+                                  blocking |-> <<>>, hard |-> 0, soft |-> 0, credit |-> 0, porder |-> porder, tcause |-> tcause])
          /\ UNCHANGED setup
 
 (* ---------------------------------------------------------------- driver steps *)
+Merge(k) == IF k = "" \/ k = tcause THEN tcause ELSE IF tcause = "" THEN k ELSE "both"
 StartNext(i, hold) ==
   /\ ~pend[i] /\ ~its[i].fin
   /\ hold => held = "" /\ its[i].blocking
   /\ Settle(c, [its EXCEPT ![i].started = TRUE], [pend EXCEPT ![i] = TRUE], canc, badd,
             "next", "", i, hold, "", {})
+  /\ UNCHANGED tcause
 
-Add == /\ Len(c.added) < MaxAdds
+Add == /\ Len(c.added) < AddBound /\ UNCHANGED tcause
        /\ \E o \in AAdd(c, Val) :
             Settle(o.c, its, pend, canc, badd, "add", Val, "", FALSE, o.res, {x.res : x \in AAdd(c, Val)})
+
+\* Force push at the far end (Deque only): on a full deque it evicts the item at the near end first - a
+\* concurrent removal for every iterator that has been started
+ForceAdd == /\ setup.kind = "deque" /\ Len(c.added) < AddBound
+            /\ tcause' = Merge(IF Evicts(c) THEN "evict" ELSE "")
+            /\ \E o \in AForce(c, Val) :
+                 Settle(o.c, IF Evicts(c) THEN [i \in Names |-> Taint(its[i])] ELSE its, pend, canc, badd,
+                        "fadd", Val, "", FALSE, o.res, {x.res : x \in AForce(c, Val)})
 
 \* a successful removal is a concurrent removal for every iterator that has been started
 Pop(end) == /\ end = "f" => setup.kind = "deque"
             /\ \E o \in APop(c, end) :
-                 Settle(o.c, IF o.res = "none" THEN its ELSE [i \in Names |-> Taint(its[i])], pend, canc, badd,
-                        "pop", end, "", FALSE, o.res, {x.res : x \in APop(c, end)})
+                 /\ Settle(o.c, IF o.res = "none" THEN its ELSE [i \in Names |-> Taint(its[i])], pend, canc, badd,
+                           "pop", end, "", FALSE, o.res, {x.res : x \in APop(c, end)})
+                 /\ tcause' = Merge(IF o.res = "none" THEN "" ELSE "pop")
 
-Close == /\ ~c.closed
+Close == /\ ~c.closed /\ UNCHANGED tcause
          /\ \E o \in AClose(c) : Settle(o.c, its, pend, canc, badd, "close", "", "", FALSE, o.res, {"ok"})
 
-Cancel(i) == /\ pend[i] /\ i \notin canc
+Cancel(i) == /\ pend[i] /\ i \notin canc /\ UNCHANGED tcause
              /\ Settle(c, its, pend, canc \cup {i}, badd, "cancel", "", i, FALSE, "", {})
 
-StartBAdd == /\ setup.trk = "quota" /\ badd.st = "none" /\ Len(c.added) < MaxAdds
+StartBAdd == /\ setup.trk = "quota" /\ badd.st = "none" /\ Len(c.added) < AddBound /\ UNCHANGED tcause
              /\ Settle(c, its, pend, canc, [st |-> "pend", val |-> Val, canc |-> FALSE],
                        "badd", Val, "", FALSE, "", {})
 
-CancelBAdd == /\ badd.st = "pend" /\ ~badd.canc
+CancelBAdd == /\ badd.st = "pend" /\ ~badd.canc /\ UNCHANGED tcause
               /\ Settle(c, its, pend, canc, [badd EXCEPT !.canc = TRUE], "cancel", "", "badd", FALSE, "", {})
 
 \* two driver operations issued back to back, with no quiescent point in between: the second lands while the
 \* calls woken by the first are still on their way (Add then Close; Add then Remove; Remove then Add)
 DoOp(c1, o) == CASE o = "add" -> AAdd(c1, Val) [] o = "pop" -> APop(c1, "n") [] o = "close" -> AClose(c1)
 Burst(o1, o2) ==
-  /\ Len(c.added) < MaxAdds /\ ~c.closed
+  /\ Len(c.added) < AddBound /\ ~c.closed
   /\ badd.st = "none"      \* a pending BlockingAdd could take effect between the two (it changes the container)
   /\ \E a \in DoOp(c, o1) : \E b \in DoOp(a.c, o2) :
        LET popped == (o1 = "pop" /\ a.res # "none") \/ (o2 = "pop" /\ b.res # "none")
            alw == UNION {{x.res \o "+" \o y.res : y \in DoOp(x.c, o2)} : x \in DoOp(c, o1)}
-       IN Settle(b.c, IF popped THEN [i \in Names |-> Taint(its[i])] ELSE its, pend, canc, badd,
-                 o1 \o "+" \o o2, Val, "", FALSE, a.res \o "+" \o b.res, alw)
+       IN /\ Settle(b.c, IF popped THEN [i \in Names |-> Taint(its[i])] ELSE its, pend, canc, badd,
+                    o1 \o "+" \o o2, Val, "", FALSE, a.res \o "+" \o b.res, alw)
+          /\ tcause' = Merge(IF popped THEN "pop" ELSE "")
 
 Driver == \/ \E i \in Names, h \in BOOLEAN : StartNext(i, h)
-          \/ Add \/ Close \/ StartBAdd \/ CancelBAdd
+          \/ Add \/ ForceAdd \/ Close \/ StartBAdd \/ CancelBAdd
           \/ Burst("add", "close") \/ Burst("add", "pop") \/ Burst("pop", "add")
           \/ \E e \in {"n", "f"} : Pop(e)
           \/ \E i \in Names : Cancel(i)
